@@ -244,33 +244,54 @@ theorem addSets_oversize : ∀ (is : List Nat) (table : List Nat), (∃ i ∈ is
 
 
 /-- **Size limit, accepted side.** If the program compiles, every domain set it emitted has a
-match-set index inside the fixed-size table. -/
-theorem compileSize_ok (emit : List Char → Option Emit) (maxLen : Nat) (rules : List (List Fn × Fn)) (n : Nat)
-    (h : compileSize emit maxLen rules = .ok n) :
-    ∃ ds, lowerRules emit rules 0 = .ok (n - 1, ds) ∧ 1 ≤ n ∧ ∀ i ∈ ds, i < maxLen := by
+match-set index inside the fixed-size table, and — for the traffic builder — the whole program,
+fallback entry included, fits the table. -/
+theorem compileSize_ok (emit : List Char → Option Emit) (totalLimit : Bool) (maxLen : Nat)
+    (rules : List (List Fn × Fn)) (n : Nat) (h : compileSize emit totalLimit maxLen rules = .ok n) :
+    ∃ ds, lowerRules emit rules 0 = .ok (n - 1, ds) ∧ 1 ≤ n ∧ (∀ i ∈ ds, i < maxLen) ∧
+      (totalLimit = true → n ≤ maxLen) := by
   unfold compileSize at h
   split at h
   · simp at h
   · rename_i k ds hl
     split at h
     · simp at h
-    · rename_i t ht
-      simp only [Except.ok.injEq] at h
-      subst h
-      obtain ⟨hb, _⟩ := addSets_ok ds _ t ht
-      refine ⟨ds, by simpa using hl, by omega, ?_⟩
-      intro i hi
-      simpa using hb i hi
+    · rename_i hnot
+      split at h
+      · simp at h
+      · rename_i t ht
+        simp only [Except.ok.injEq] at h
+        subst h
+        obtain ⟨hb, _⟩ := addSets_ok ds _ t ht
+        refine ⟨ds, by simpa using hl, by omega, ?_, ?_⟩
+        · intro i hi
+          simpa using hb i hi
+        · intro htl
+          simp only [htl, true_and, Nat.not_lt] at hnot
+          exact hnot
 
-/-- **Size limit, rejected side.** A program that lowers to a domain set at a match-set index
-beyond the supported maximum is a build error (never an out-of-range table access). -/
-theorem compileSize_oversize (emit : List Char → Option Emit) (maxLen : Nat) (rules : List (List Fn × Fn))
+/-- **Size limit, rejected side (traffic routing, 51cbe59).** A program that lowers to more match
+sets than the table holds — counting the fallback entry — is a build error, whatever kinds of
+match sets it consists of. -/
+theorem compileSize_too_long (emit : List Char → Option Emit) (maxLen : Nat) (rules : List (List Fn × Fn))
+    (k : Nat) (ds : List Nat) (hl : lowerRules emit rules 0 = .ok (k, ds)) (hbig : maxLen < k + 1) :
+    compileSize emit true maxLen rules = .error .oversize := by
+  unfold compileSize
+  rw [hl]
+  simp [hbig]
+
+/-- **Size limit, rejected side (every builder).** A program that lowers to a domain set at a
+match-set index beyond the supported maximum is a build error (never an out-of-range table access). -/
+theorem compileSize_oversize (emit : List Char → Option Emit) (totalLimit : Bool) (maxLen : Nat)
+    (rules : List (List Fn × Fn))
     (k : Nat) (ds : List Nat) (hl : lowerRules emit rules 0 = .ok (k, ds)) (hbig : ∃ i ∈ ds, maxLen ≤ i) :
-    compileSize emit maxLen rules = .error .oversize := by
+    compileSize emit totalLimit maxLen rules = .error .oversize := by
   unfold compileSize
   rw [hl]
   simp only
-  rw [addSets_oversize ds _ (by simpa using hbig)]
+  split
+  · rfl
+  · rw [addSets_oversize ds _ (by simpa using hbig)]
 
 /-! ## the probed lexer table -/
 
